@@ -418,7 +418,7 @@ PROPS["C17"] = {
     "quick": {"shards": 8, "budget_s": 20, "watchdog_s": 600},
     "thorough": {"shards": 16, "budget_s": 600, "watchdog_s": 3000},
     "floor": {"quick": 3000, "thorough": 100000},
-    "require_counters": {"quick": {"stops": 10000, "resume_actions_while_stopped": 10000, "step_semantics_checked": 1000, "cycles_compared_with_undebugged_run": 10000, "trace_events_checked": 1000000,
+    "require_counters": {"quick": {"stops": 10000, "resume_actions_while_stopped": 10000, "step_semantics_checked": 1000, "cycles_compared_with_undebugged_run": 10000, "trace_events_checked": 1000000, "write_force_cycles_compared_with_boundary_model": 5000,
                                    "dap_sessions": 40, "dap_stopped_events": 250, "dap_blocked_states_announced": 100, "dap_stop_locations_compared": 100, "dap_final_pause_stops": 40},
                          "thorough": {"stops": 1000000, "step_semantics_checked": 100000}},
     "rule": "program with a 4-deep call chain (PROGRAM -> FB -> FUNCTION with FOR loop -> FUNCTION), a WHILE loop, two cyclic tasks sharing a global and a background program, run for 2-12 cycles; "
@@ -434,7 +434,7 @@ PROPS["C17"] = {
                   "thread ids and setBreakpoints with changing line sets on a two-task program paced in real time; the adapter process inherits ST_DEBUG_TRACE, so the trace tells whether the "
                   "cycle thread is blocked. At quiescent points a blocked thread must have been announced by a `stopped` event that arrived after the last resume request (else: execution "
                   "stopped without notification), the top stack frame must be on the line of the runtime's stop location, and at the end clear-breakpoints + continue + pause must yield a "
-                  "`stopped` event within 5 s. Scripts never write values, so every state difference is a transparency violation. The 3 s / 5 s bounds are watchdogs for a thread that needs microseconds; the thread is proven "
+                  "`stopped` event within 5 s. Part C (every non-DAP shard, 300 / 3000 trials): queued writes, forces and releases of a shared global at random cycle boundaries of the debugged runtime are compared cycle by cycle with the undebugged runtime in which the same value is set through the harness exactly where it must act (write: start of the next cycle; force: start and end of every cycle while active). Part A scripts never write values, so there every state difference is a transparency violation. The 3 s / 5 s bounds are watchdogs for a thread that needs microseconds; the thread is proven "
                   "blocked (not starved) by the trace ending in hook.wait. Remote-attach sessions of the adapter (stop_remote.rs) are not driven.",
     "assumptions": ["trace lines are appended while the debug mutex is held (true for every trace_debug call in control.rs)", "interleavings are those the OS scheduler and the injected delays produce, not all"],
     "env": {},
